@@ -1,7 +1,1330 @@
-//! implementation-side oracles (model-free): see DESIGN.md §3.4
+//! implementation-side oracles (model-free) for C03, C06 and C07: see DESIGN.md §3.4
+//!
+//! Everything here is written from the CLI help text and the function descriptions, not from
+//! jawk's code: a tiny expression reader/evaluator for exactly the expression shapes the
+//! generator pools contain, the documented total order, and a reference pipeline interpreter
+//! over `Vec<V>`.  Whenever a group contains something the reference does not cover the oracle
+//! answers `None` (no verdict) instead of guessing.
+use crate::case::Spec;
 use crate::gens::Group;
+use crate::props::parse_rows;
 use crate::runner::Obs;
+use crate::value::{self, Strict, V};
+use std::cmp::Ordering;
+use std::collections::HashMap;
 
-pub fn oracle(_prop: &str, _g: &Group, _obs: &[Obs]) -> Option<String> {
+pub fn oracle(prop: &str, g: &Group, obs: &[Obs]) -> Option<String> {
+    match prop {
+        "C03" => c03(g, obs),
+        "C06" => c06(g, obs),
+        "C07" => c07(g, obs),
+        _ => None,
+    }
+}
+
+// ---------------------------------------------------------------------------------- values
+
+fn is_num(v: &V) -> bool {
+    matches!(v, V::Int(_) | V::Float(_))
+}
+
+fn num_cmp(a: &V, b: &V) -> Option<Ordering> {
+    match (a, b) {
+        (V::Int(x), V::Int(y)) => Some(x.cmp(y)),
+        _ => {
+            let f = |v: &V| match v {
+                V::Int(i) => *i as f64,
+                V::Float(f) => *f,
+                _ => f64::NAN,
+            };
+            f(a).partial_cmp(&f(b))
+        }
+    }
+}
+
+/// JSON equality: numbers by value, objects as unordered maps
+pub fn v_eq(a: &V, b: &V) -> bool {
+    match (a, b) {
+        (V::Null, V::Null) => true,
+        (V::Bool(x), V::Bool(y)) => x == y,
+        (V::Str(x), V::Str(y)) => x == y,
+        (x, y) if is_num(x) && is_num(y) => num_cmp(x, y) == Some(Ordering::Equal),
+        (V::Arr(x), V::Arr(y)) => x.len() == y.len() && x.iter().zip(y).all(|(p, q)| v_eq(p, q)),
+        (V::Obj(x), V::Obj(y)) => x.len() == y.len() && x.iter().all(|(k, p)| y.iter().any(|(k2, q)| k == k2 && v_eq(p, q))),
+        _ => false,
+    }
+}
+
+/// the same printed row: numbers by value, object members in the same order
+fn same_row(a: &V, b: &V) -> bool {
+    match (a, b) {
+        (V::Arr(x), V::Arr(y)) => x.len() == y.len() && x.iter().zip(y).all(|(p, q)| same_row(p, q)),
+        (V::Obj(x), V::Obj(y)) => x.len() == y.len() && x.iter().zip(y).all(|((k, p), (k2, q))| k == k2 && same_row(p, q)),
+        (V::Arr(_), _) | (V::Obj(_), _) | (_, V::Arr(_)) | (_, V::Obj(_)) => false,
+        _ => v_eq(a, b),
+    }
+}
+
+fn rank(v: &V) -> u8 {
+    match v {
+        V::Null => 0,
+        V::Bool(false) => 1,
+        V::Bool(true) => 2,
+        V::Str(_) => 3,
+        V::Int(_) | V::Float(_) => 4,
+        V::Obj(_) => 5,
+        V::Arr(_) => 6,
+    }
+}
+
+/// The documented total order: null < false < true < strings (code point) < numbers (value)
+/// < objects < arrays (lexicographic).  How two different objects compare is not documented:
+/// `None` = no verdict.
+pub fn ref_cmp(a: &V, b: &V) -> Option<Ordering> {
+    let (ra, rb) = (rank(a), rank(b));
+    if ra != rb {
+        return Some(ra.cmp(&rb));
+    }
+    match (a, b) {
+        (V::Str(x), V::Str(y)) => Some(x.chars().cmp(y.chars())),
+        (x, y) if is_num(x) && is_num(y) => num_cmp(x, y),
+        (V::Arr(x), V::Arr(y)) => {
+            for (p, q) in x.iter().zip(y.iter()) {
+                match ref_cmp(p, q)? {
+                    Ordering::Equal => {}
+                    c => return Some(c),
+                }
+            }
+            Some(x.len().cmp(&y.len()))
+        }
+        (V::Obj(_), V::Obj(_)) => {
+            if v_eq(a, b) && same_row(a, b) {
+                Some(Ordering::Equal)
+            } else {
+                None
+            }
+        }
+        _ => Some(Ordering::Equal),
+    }
+}
+
+fn show(v: &V) -> String {
+    let s = value::render(v);
+    if s.chars().count() > 160 {
+        format!("{}…", s.chars().take(160).collect::<String>())
+    } else {
+        s
+    }
+}
+
+fn show_opt(v: &Option<V>) -> String {
+    match v {
+        Some(v) => show(v),
+        None => "<nothing>".into(),
+    }
+}
+
+/// all the values of a white-space separated stream (strict reader)
+fn parse_stream(bytes: &[u8]) -> Option<Vec<V>> {
+    let mut p = Strict::new(bytes);
+    let mut vals = vec![];
+    while !p.at_end() {
+        vals.push(p.value().ok()?);
+    }
+    Some(vals)
+}
+
+// ---------------------------------------------------------------------------------- expressions
+
+#[derive(Clone, Debug)]
+enum Step {
+    Key(String),
+    Idx(usize),
+}
+
+#[derive(Clone, Debug)]
+enum Expr {
+    Path(Vec<Step>),
+    Lit(V),
+    Var(String),
+    Macro(String),
+    Call(String, Vec<Expr>),
+}
+
+/// the reference does not cover this expression / value combination
+#[derive(Debug)]
+struct Unsupported(String);
+
+type R<T> = Result<T, Unsupported>;
+
+fn unsupported<T>(what: impl Into<String>) -> R<T> {
+    Err(Unsupported(what.into()))
+}
+
+struct ExprReader<'a> {
+    s: &'a [u8],
+    i: usize,
+}
+
+impl<'a> ExprReader<'a> {
+    fn new(s: &'a str) -> Self {
+        ExprReader { s: s.as_bytes(), i: 0 }
+    }
+    fn peek(&self) -> Option<u8> {
+        self.s.get(self.i).copied()
+    }
+    fn skip_ws(&mut self) {
+        while let Some(b' ' | b'\n' | b'\t' | b'\r') = self.peek() {
+            self.i += 1;
+        }
+    }
+    fn rest(&self) -> &'a str {
+        std::str::from_utf8(&self.s[self.i.min(self.s.len())..]).unwrap_or("")
+    }
+    fn word(&mut self, stop: &[u8]) -> String {
+        let start = self.i;
+        while let Some(c) = self.peek() {
+            if stop.contains(&c) {
+                break;
+            }
+            self.i += 1;
+        }
+        String::from_utf8_lossy(&self.s[start..self.i]).into_owned()
+    }
+    fn expr(&mut self) -> R<Expr> {
+        self.skip_ws();
+        match self.peek() {
+            None => unsupported("empty expression"),
+            Some(b'(') => {
+                self.i += 1;
+                self.skip_ws();
+                let name = self.word(b" \n\t\r),(");
+                if name.is_empty() || name.starts_with('.') || name.starts_with('"') {
+                    return unsupported(format!("function spelling `{name}`"));
+                }
+                let mut args = vec![];
+                loop {
+                    self.skip_ws();
+                    match self.peek() {
+                        Some(b',') => self.i += 1,
+                        Some(b')') => {
+                            self.i += 1;
+                            return Ok(Expr::Call(name, args));
+                        }
+                        None => return unsupported("unbalanced expression"),
+                        _ => args.push(self.expr()?),
+                    }
+                }
+            }
+            Some(b'^') => unsupported("parent inputs"),
+            Some(b'.' | b'#') => {
+                let mut steps = vec![];
+                loop {
+                    match self.peek() {
+                        Some(b'.') => {
+                            self.i += 1;
+                            let key = self.word(b" \n\t\r.,=()\"][{}#");
+                            if key.bytes().any(|c| c.is_ascii_control()) {
+                                return unsupported("control character in a key");
+                            }
+                            if key.is_empty() {
+                                if steps.is_empty() {
+                                    return Ok(Expr::Path(vec![]));
+                                }
+                                return unsupported("empty key");
+                            }
+                            steps.push(Step::Key(key));
+                        }
+                        Some(b'#') => {
+                            self.i += 1;
+                            let d = self.word(b" \n\t\r.,=()\"][{}#");
+                            match d.parse::<usize>() {
+                                Ok(n) if d.bytes().all(|c| c.is_ascii_digit()) => steps.push(Step::Idx(n)),
+                                _ => return unsupported("index spelling"),
+                            }
+                        }
+                        _ => return Ok(Expr::Path(steps)),
+                    }
+                }
+            }
+            Some(c @ (b':' | b'@')) => {
+                self.i += 1;
+                let name = self.word(b" \n\t\r),=");
+                if name.is_empty() {
+                    return unsupported("empty name");
+                }
+                Ok(if c == b':' { Expr::Var(name) } else { Expr::Macro(name) })
+            }
+            Some(b'&' | b'/') => unsupported("input context / selection reference"),
+            Some(_) => {
+                let mut p = Strict::new(&self.s[self.i..]);
+                match p.value() {
+                    Ok(v) => {
+                        self.i += p.i;
+                        Ok(Expr::Lit(v))
+                    }
+                    Err(e) => unsupported(format!("literal: {e}")),
+                }
+            }
+        }
+    }
+}
+
+/// a whole option value that must be exactly one expression
+fn read_whole(s: &str) -> R<Expr> {
+    let mut p = ExprReader::new(s);
+    let e = p.expr()?;
+    p.skip_ws();
+    if p.peek().is_some() {
+        return unsupported(format!("trailing text in `{s}`"));
+    }
+    Ok(e)
+}
+
+struct Env {
+    vars: HashMap<String, V>,
+    macros: HashMap<String, Expr>,
+}
+
+fn plain_ascii(s: &str) -> bool {
+    s.chars().all(|c| (' '..='~').contains(&c) && c != '"' && c != '\\' && c != '/')
+}
+
+/// "the JSON representation" of a scalar; containers and exotic spellings are left out
+fn stringify(v: &V) -> R<String> {
+    match v {
+        V::Null => Ok("null".into()),
+        V::Bool(b) => Ok(b.to_string()),
+        V::Int(i) => Ok(i.to_string()),
+        V::Float(f) if f.abs() >= 1e-4 && f.abs() < 1e15 => Ok(format!("{f}")),
+        V::Str(s) if plain_ascii(s) => Ok(format!("\"{s}\"")),
+        _ => unsupported(format!("stringify of {}", show(v))),
+    }
+}
+
+fn eval(e: &Expr, input: &V, env: &Env) -> R<Option<V>> {
+    match e {
+        Expr::Lit(v) => Ok(Some(v.clone())),
+        Expr::Var(n) => Ok(env.vars.get(n).cloned()),
+        Expr::Macro(n) => match env.macros.get(n) {
+            Some(m) => eval(m, input, env),
+            None => Ok(None),
+        },
+        Expr::Path(steps) => {
+            let mut cur = input;
+            for s in steps {
+                let next = match (s, cur) {
+                    (Step::Key(k), V::Obj(kvs)) => kvs.iter().find(|(x, _)| x == k).map(|(_, v)| v),
+                    (Step::Idx(i), V::Arr(a)) => a.get(*i),
+                    _ => None,
+                };
+                match next {
+                    Some(v) => cur = v,
+                    None => return Ok(None),
+                }
+            }
+            Ok(Some(cur.clone()))
+        }
+        Expr::Call(name, args) => {
+            let arity = |lo: usize, hi: usize| -> R<()> {
+                if args.len() < lo || args.len() > hi {
+                    unsupported(format!("arity of {name}"))
+                } else {
+                    Ok(())
+                }
+            };
+            match name.as_str() {
+                "size" => {
+                    arity(1, 1)?;
+                    Ok(match eval(&args[0], input, env)? {
+                        Some(V::Obj(o)) => Some(V::Int(o.len() as i128)),
+                        Some(V::Arr(a)) => Some(V::Int(a.len() as i128)),
+                        Some(V::Str(s)) => Some(V::Int(s.chars().count() as i128)),
+                        _ => None,
+                    })
+                }
+                "default" => {
+                    arity(1, usize::MAX)?;
+                    for a in args {
+                        if let Some(v) = eval(a, input, env)? {
+                            return Ok(Some(v));
+                        }
+                    }
+                    Ok(None)
+                }
+                "?" => {
+                    arity(3, 3)?;
+                    match eval(&args[0], input, env)? {
+                        Some(V::Bool(true)) => eval(&args[1], input, env),
+                        Some(V::Bool(false)) => eval(&args[2], input, env),
+                        _ => Ok(None),
+                    }
+                }
+                "number?" | "string?" | "null?" | "boolean?" | "array?" | "object?" => {
+                    arity(1, 1)?;
+                    let v = eval(&args[0], input, env)?;
+                    let yes = match (name.as_str(), &v) {
+                        ("number?", Some(V::Int(_) | V::Float(_))) => true,
+                        ("string?", Some(V::Str(_))) => true,
+                        ("null?", Some(V::Null)) => true,
+                        ("boolean?", Some(V::Bool(_))) => true,
+                        ("array?", Some(V::Arr(_))) => true,
+                        ("object?", Some(V::Obj(_))) => true,
+                        _ => false,
+                    };
+                    Ok(Some(V::Bool(yes)))
+                }
+                "empty?" => {
+                    arity(1, 1)?;
+                    Ok(Some(V::Bool(eval(&args[0], input, env)?.is_none())))
+                }
+                "not" => {
+                    arity(1, 1)?;
+                    Ok(match eval(&args[0], input, env)? {
+                        Some(V::Bool(b)) => Some(V::Bool(!b)),
+                        _ => None,
+                    })
+                }
+                "<" | ">" | "<=" | ">=" => {
+                    arity(2, 2)?;
+                    let (a, b) = (eval(&args[0], input, env)?, eval(&args[1], input, env)?);
+                    match (a, b) {
+                        (Some(a), Some(b)) => match ref_cmp(&a, &b) {
+                            Some(c) => Ok(Some(V::Bool(match name.as_str() {
+                                "<" => c == Ordering::Less,
+                                ">" => c == Ordering::Greater,
+                                "<=" => c != Ordering::Greater,
+                                _ => c != Ordering::Less,
+                            }))),
+                            None => unsupported("order of two different objects"),
+                        },
+                        _ => Ok(None),
+                    }
+                }
+                "=" => {
+                    arity(2, 2)?;
+                    let (a, b) = (eval(&args[0], input, env)?, eval(&args[1], input, env)?);
+                    match (a, b) {
+                        (Some(a), Some(b)) => Ok(Some(V::Bool(v_eq(&a, &b)))),
+                        _ => Ok(None),
+                    }
+                }
+                "stringify" => {
+                    arity(1, 1)?;
+                    match eval(&args[0], input, env)? {
+                        Some(v) => Ok(Some(V::Str(stringify(&v)?))),
+                        None => Ok(None),
+                    }
+                }
+                "push" => {
+                    arity(2, usize::MAX)?;
+                    match eval(&args[0], input, env)? {
+                        Some(V::Arr(mut a)) => {
+                            for x in &args[1..] {
+                                if let Some(v) = eval(x, input, env)? {
+                                    a.push(v);
+                                }
+                            }
+                            Ok(Some(V::Arr(a)))
+                        }
+                        _ => Ok(None),
+                    }
+                }
+                _ => unsupported(format!("function {name}")),
+            }
+        }
+    }
+}
+
+// ---------------------------------------------------------------------------------- reference pipeline
+
+#[derive(Clone, Debug)]
+struct Row {
+    input: V,
+    results: Vec<(String, Option<V>)>,
+}
+
+impl Row {
+    /// what is printed / collected for the row: the input, or the object of the selections that gave a value
+    fn build(&self) -> V {
+        if self.results.is_empty() {
+            return self.input.clone();
+        }
+        let mut kvs: Vec<(String, V)> = vec![];
+        for (n, v) in &self.results {
+            if let Some(v) = v {
+                if let Some(p) = kvs.iter().position(|(k, _)| k == n) {
+                    kvs[p].1 = v.clone();
+                } else {
+                    kvs.push((n.clone(), v.clone()));
+                }
+            }
+        }
+        V::Obj(kvs)
+    }
+    fn same_output(&self, other: &Row) -> bool {
+        if self.results.is_empty() != other.results.is_empty() {
+            return false;
+        }
+        if self.results.is_empty() {
+            return v_eq(&self.input, &other.input);
+        }
+        self.results.len() == other.results.len()
+            && self.results.iter().zip(&other.results).all(|((_, a), (_, b))| match (a, b) {
+                (None, None) => true,
+                (Some(a), Some(b)) => v_eq(a, b),
+                _ => false,
+            })
+    }
+}
+
+struct SortKey {
+    e: Expr,
+    desc: bool,
+}
+
+fn read_sort(s: &str) -> R<SortKey> {
+    let mut p = ExprReader::new(s);
+    let e = p.expr()?;
+    let dir = p.rest().trim().to_uppercase();
+    match dir.as_str() {
+        "" | "ASC" => Ok(SortKey { e, desc: false }),
+        "DESC" => Ok(SortKey { e, desc: true }),
+        _ => unsupported(format!("direction `{dir}`")),
+    }
+}
+
+fn read_select(s: &str) -> R<(Expr, String)> {
+    let mut p = ExprReader::new(s);
+    let e = p.expr()?;
+    p.skip_ws();
+    match p.peek() {
+        None => Ok((e, s.to_string())),
+        Some(b'=') => {
+            p.i += 1;
+            p.skip_ws();
+            Ok((e, p.rest().to_string()))
+        }
+        _ => unsupported(format!("selection `{s}`")),
+    }
+}
+
+fn read_env(sets: &[String]) -> R<Env> {
+    let mut env = Env { vars: HashMap::new(), macros: HashMap::new() };
+    let empty = Env { vars: HashMap::new(), macros: HashMap::new() };
+    for s in sets {
+        let Some((k, v)) = s.split_once('=') else { return unsupported("--set without =") };
+        let k = k.trim();
+        let e = read_whole(v)?;
+        if let Some(m) = k.strip_prefix('@') {
+            if m.is_empty() || env.macros.insert(m.to_string(), e).is_some() {
+                return unsupported("macro name");
+            }
+        } else {
+            match eval(&e, &V::Null, &empty)? {
+                Some(val) if !k.is_empty() => {
+                    if env.vars.insert(k.to_string(), val).is_some() {
+                        return unsupported("duplicate variable");
+                    }
+                }
+                _ => return unsupported("variable without a value"),
+            }
+        }
+    }
+    Ok(env)
+}
+
+/// lexicographic comparison of the key tuples, the first key the most significant, each in its
+/// own direction; `None` when the documented order gives no verdict
+fn cmp_keys(a: &[V], b: &[V], keys: &[SortKey]) -> Option<Ordering> {
+    for ((x, y), k) in a.iter().zip(b).zip(keys) {
+        let c = ref_cmp(x, y)?;
+        let c = if k.desc { c.reverse() } else { c };
+        if c != Ordering::Equal {
+            return Some(c);
+        }
+    }
+    Some(Ordering::Equal)
+}
+
+struct Stages {
+    env: Env,
+    split: Option<Expr>,
+    filter: Option<Expr>,
+    selects: Vec<(Expr, String)>,
+    sorts: Vec<SortKey>,
+    group: Option<Option<Expr>>,
+}
+
+fn read_stages(spec: &Spec) -> R<Stages> {
+    Ok(Stages {
+        env: read_env(&spec.sets)?,
+        split: spec.split.as_deref().map(read_whole).transpose()?,
+        filter: spec.filter.as_deref().map(read_whole).transpose()?,
+        selects: spec.selects.iter().map(|s| read_select(s)).collect::<R<Vec<_>>>()?,
+        sorts: spec.sorts.iter().map(|s| read_sort(s)).collect::<R<Vec<_>>>()?,
+        group: match &spec.group {
+            None => None,
+            Some(None) => Some(None),
+            Some(Some(e)) => Some(Some(read_whole(e)?)),
+        },
+    })
+}
+
+/// The documented stage composition as pure list transformations:
+/// only-objects-and-arrays, set, split, filter, select, unique, sort, skip/take, group|merge.
+/// Returns the rows to print.
+fn reference_pipeline(spec: &Spec, inputs: &[V]) -> R<Vec<V>> {
+    let st = read_stages(spec)?;
+    let env = &st.env;
+    // --only-objects-and-arrays
+    let mut rows: Vec<Row> = inputs
+        .iter()
+        .filter(|v| !spec.ooa || matches!(v, V::Obj(_) | V::Arr(_)))
+        .map(|v| Row { input: v.clone(), results: vec![] })
+        .collect();
+    // --split-by: one row per element of the list; anything but a list gives no row
+    if let Some(e) = &st.split {
+        let mut next = vec![];
+        for r in &rows {
+            if let Some(V::Arr(items)) = eval(e, &r.input, env)? {
+                for it in items {
+                    next.push(Row { input: it, results: vec![] });
+                }
+            }
+        }
+        rows = next;
+    }
+    // --filter: kept when the filter is true
+    if let Some(e) = &st.filter {
+        let mut next = vec![];
+        for r in rows {
+            if let Some(V::Bool(true)) = eval(e, &r.input, env)? {
+                next.push(r);
+            }
+        }
+        rows = next;
+    }
+    // --select (in the order given)
+    for (e, name) in &st.selects {
+        for r in rows.iter_mut() {
+            let v = eval(e, &r.input, env)?;
+            r.results.push((name.clone(), v));
+        }
+    }
+    // --unique: the first of equal outputs
+    if spec.unique {
+        let mut next: Vec<Row> = vec![];
+        for r in rows {
+            if !next.iter().any(|x| x.same_output(&r)) {
+                next.push(r);
+            }
+        }
+        rows = next;
+    }
+    // --sort-by: rows without a key are dropped; stable; first key most significant
+    if !st.sorts.is_empty() {
+        let mut keyed: Vec<(Vec<V>, Row)> = vec![];
+        'rows: for r in rows {
+            let mut ks = vec![];
+            for k in &st.sorts {
+                match eval(&k.e, &r.input, env)? {
+                    Some(v) => ks.push(v),
+                    None => continue 'rows,
+                }
+            }
+            keyed.push((ks, r));
+        }
+        // insertion sort: stable, and every comparison made must have a documented answer
+        let mut sorted: Vec<(Vec<V>, Row)> = vec![];
+        for item in keyed {
+            let mut pos = sorted.len();
+            while pos > 0 {
+                match cmp_keys(&sorted[pos - 1].0, &item.0, &st.sorts) {
+                    Some(Ordering::Greater) => pos -= 1,
+                    Some(_) => break,
+                    None => return unsupported("sort key order undocumented (objects)"),
+                }
+            }
+            sorted.insert(pos, item);
+        }
+        rows = sorted.into_iter().map(|(_, r)| r).collect();
+    }
+    // --skip / --take
+    let skip = spec.skip.min(rows.len() as u64) as usize;
+    rows.drain(..skip);
+    if let Some(t) = spec.take {
+        rows.truncate(t.min(rows.len() as u64) as usize);
+    }
+    // --group-by / --merge: one collection
+    match &st.group {
+        None => Ok(rows.iter().map(|r| r.build()).collect()),
+        Some(None) => Ok(vec![V::Arr(rows.iter().map(|r| r.build()).collect())]),
+        Some(Some(e)) => {
+            let mut groups: Vec<(String, V)> = vec![];
+            for r in &rows {
+                if let Some(V::Str(k)) = eval(e, &r.input, env)? {
+                    let row = r.build();
+                    match groups.iter_mut().find(|(x, _)| *x == k) {
+                        Some((_, V::Arr(a))) => a.push(row),
+                        _ => groups.push((k, V::Arr(vec![row]))),
+                    }
+                }
+            }
+            Ok(vec![V::Obj(groups)])
+        }
+    }
+}
+
+fn rowsep(s: &Spec) -> String {
+    s.rowsep.clone().unwrap_or("\n".into())
+}
+
+fn count_sep(out: &[u8], sep: &[u8]) -> usize {
+    if sep.is_empty() {
+        return 0;
+    }
+    let mut n = 0;
+    let mut i = 0;
+    while i + sep.len() <= out.len() {
+        if &out[i..i + sep.len()] == sep {
+            n += 1;
+            i += sep.len();
+        } else {
+            i += 1;
+        }
+    }
+    n
+}
+
+// ---------------------------------------------------------------------------------- C03
+
+fn c03(g: &Group, obs: &[Obs]) -> Option<String> {
+    for (c, o) in g.cases.iter().zip(obs) {
+        let Some(src) = c.sources.first() else { continue };
+        if c.sources.len() != 1 || src.name.is_some() || c.rerr.is_some() || c.wfail.is_some() || c.endless.is_some() {
+            continue;
+        }
+        let Some(inputs) = parse_stream(&src.bytes) else { continue };
+        let want = match reference_pipeline(&c.spec, &inputs) {
+            Ok(w) => w,
+            Err(Unsupported(why)) => {
+                // no verdict; ORACLE_A_DEBUG=1 lists these so that their share can be counted
+                if std::env::var("ORACLE_A_DEBUG").is_ok() {
+                    eprintln!("ORACLE_A skip {}: {why}", c.id);
+                }
+                continue;
+            }
+        };
+        if o.res != "ok" {
+            return Some(format!("{}: a valid pipeline over a clean stream ended with {} {}", c.id, o.res, o.panic_msg));
+        }
+        let sep = rowsep(&c.spec);
+        match c.spec.style.as_deref() {
+            None | Some("json") => {
+                let got = match parse_rows(&o.out, &sep) {
+                    Ok(r) => r,
+                    Err(e) => return Some(format!("{}: {e}", c.id)),
+                };
+                if got.len() != want.len() {
+                    return Some(format!(
+                        "{}: the documented stage composition gives {} rows, the program printed {} (first expected {}, first printed {})",
+                        c.id,
+                        want.len(),
+                        got.len(),
+                        want.first().map(show).unwrap_or("-".into()),
+                        got.first().map(show).unwrap_or("-".into())
+                    ));
+                }
+                for (i, (a, b)) in got.iter().zip(&want).enumerate() {
+                    if !same_row(a, b) {
+                        return Some(format!("{}: row {i} is {} but the documented stage composition gives {}", c.id, show(a), show(b)));
+                    }
+                }
+            }
+            Some(style) => {
+                // text / csv: the bytes are C15's business; the number of rows is the pipeline's
+                if !plain_rows(&want) {
+                    continue;
+                }
+                let header = if style == "csv" || c.spec.headers { 1 } else { 0 };
+                let n = count_sep(&o.out, sep.as_bytes());
+                if n != want.len() + header {
+                    return Some(format!("{}: {style} output has {n} rows, the documented stage composition gives {}", c.id, want.len() + header));
+                }
+            }
+        }
+    }
+    // argument-order twins print the same bytes
+    if g.cases.len() >= 2 {
+        for (c, o) in g.cases.iter().zip(obs).skip(1) {
+            if c.spec == g.cases[0].spec && c.sources == g.cases[0].sources && (o.res != obs[0].res || o.out != obs[0].out) {
+                return Some(format!("{}: the same options in another order on the command line give a different result ({} vs {})", c.id, o.res, obs[0].res));
+            }
+        }
+    }
+    None
+}
+
+/// no string anywhere in the rows contains a line break (so rows can be counted in text output)
+fn plain_rows(rows: &[V]) -> bool {
+    fn ok(v: &V) -> bool {
+        match v {
+            V::Str(s) => !s.contains('\n') && !s.contains('\r'),
+            V::Arr(a) => a.iter().all(ok),
+            V::Obj(o) => o.iter().all(|(k, v)| !k.contains('\n') && !k.contains('\r') && ok(v)),
+            _ => true,
+        }
+    }
+    rows.iter().all(ok)
+}
+
+// ---------------------------------------------------------------------------------- C06
+
+fn tag_num(tag: &str, key: &str) -> Option<usize> {
+    tag.split_whitespace().find_map(|t| t.strip_prefix(key).and_then(|v| v.strip_prefix('='))).and_then(|v| v.parse().ok())
+}
+
+fn tag_list(tag: &str, key: &str) -> Option<Vec<usize>> {
+    let v = tag.split_whitespace().find_map(|t| t.strip_prefix(key).and_then(|v| v.strip_prefix('=')))?;
+    if v.is_empty() {
+        return Some(vec![]);
+    }
+    v.split(',').map(|x| x.parse().ok()).collect()
+}
+
+fn lines(b: &[u8]) -> Vec<&[u8]> {
+    let mut v: Vec<&[u8]> = b.split(|c| *c == b'\n').collect();
+    if v.last().map(|l| l.is_empty()).unwrap_or(false) {
+        v.pop();
+    }
+    v
+}
+
+fn report_lines(b: &[u8]) -> usize {
+    lines(b).iter().filter(|l| l.starts_with(b"error:")).count()
+}
+
+fn without_reports(b: &[u8]) -> Vec<u8> {
+    let mut out = vec![];
+    for l in b.split_inclusive(|c| *c == b'\n') {
+        if !l.starts_with(b"error:") {
+            out.extend_from_slice(l);
+        }
+    }
+    out
+}
+
+/// Where the noise sits: for every malformed region the number of values that precede it.
+/// Recomputed from the two streams when the generator's tag is missing (replay).
+fn noise_positions(g: &Group, noisy: &[u8]) -> Option<Vec<usize>> {
+    if let Some(at) = tag_list(&g.tag, "at") {
+        return Some(at);
+    }
+    // walk the noisy stream: values by the strict reader, anything else is a white-space delimited token
+    let mut at = vec![];
+    let mut i = 0;
+    let mut seen = 0;
+    let mut in_region = false;
+    while i < noisy.len() {
+        let c = noisy[i];
+        if matches!(c, b' ' | b'\n' | b'\r' | b'\t') {
+            i += 1;
+            continue;
+        }
+        if b"\"-[{0123456789ntf".contains(&c) {
+            let mut p = Strict::new(&noisy[i..]);
+            p.value().ok()?;
+            i += p.i;
+            seen += 1;
+            in_region = false;
+        } else {
+            if !in_region {
+                at.push(seen);
+                in_region = true;
+            }
+            while i < noisy.len() && !matches!(noisy[i], b' ' | b'\n' | b'\r' | b'\t') {
+                i += 1;
+            }
+        }
+    }
+    Some(at)
+}
+
+#[derive(PartialEq)]
+enum C06Spec {
+    Identity,
+    SelectSize,
+    FilterNotNull,
+    UniqueTake(usize),
+    Buffered,
+    Other,
+}
+
+fn c06_spec(s: &Spec) -> C06Spec {
+    let plain = s.split.is_none() && s.sets.is_empty() && !s.ooa && s.skip == 0 && s.style.is_none() && s.jstyle.is_none() && s.rowsep.is_none();
+    if !plain {
+        return C06Spec::Other;
+    }
+    if !s.sorts.is_empty() || s.group.is_some() {
+        return C06Spec::Buffered;
+    }
+    match (s.selects.as_slice(), s.filter.as_deref(), s.unique, s.take) {
+        ([], None, false, None) => C06Spec::Identity,
+        ([one], None, false, None) if one == "(size .)=n" => C06Spec::SelectSize,
+        ([], Some("(not (null? .))"), false, None) => C06Spec::FilterNotNull,
+        ([], None, true, Some(t)) => C06Spec::UniqueTake(t as usize),
+        _ => C06Spec::Other,
+    }
+}
+
+fn c06(g: &Group, obs: &[Obs]) -> Option<String> {
+    if g.cases.len() != 8 || obs.len() != 8 {
+        return None;
+    }
+    let noisy_bytes = &g.cases[0].sources.first()?.bytes;
+    let clean_bytes = &g.cases[1].sources.first()?.bytes;
+    let values: Vec<V> = if g.values.is_empty() { parse_stream(clean_bytes)? } else { g.values.clone() };
+    let at = noise_positions(g, noisy_bytes)?;
+    let regions = tag_num(&g.tag, "regions").unwrap_or(at.len());
+    if regions != at.len() {
+        return None;
+    }
+    let kind = c06_spec(&g.cases[0].spec);
+    // how far does the run read?  `--take` ends it with the value that gives the last row taken
+    let mut stop_after: Option<usize> = None; // index of the value whose row ends the run
+    let mut ambiguous = false;
+    let rows_before = |k: usize| -> Option<usize> {
+        // rows a streaming pipeline has printed once the first k values are processed
+        match kind {
+            C06Spec::Identity | C06Spec::SelectSize => Some(k),
+            C06Spec::FilterNotNull => Some(values[..k.min(values.len())].iter().filter(|v| **v != V::Null).count()),
+            C06Spec::UniqueTake(t) => {
+                let mut seen: Vec<&V> = vec![];
+                for v in &values[..k.min(values.len())] {
+                    if !seen.iter().any(|x| v_eq(x, v)) {
+                        seen.push(v);
+                    }
+                }
+                Some(seen.len().min(t))
+            }
+            _ => None,
+        }
+    };
+    if let C06Spec::UniqueTake(t) = kind {
+        // equal-as-JSON but differently written values: whether --unique merges them is C10's question
+        for (i, a) in values.iter().enumerate() {
+            for b in &values[..i] {
+                if v_eq(a, b) && !same_row(a, b) {
+                    ambiguous = true;
+                }
+            }
+        }
+        if t == 0 {
+            stop_after = if values.is_empty() { None } else { Some(0) };
+        } else {
+            for k in 1..=values.len() {
+                if rows_before(k) == Some(t) {
+                    stop_after = Some(k - 1);
+                    break;
+                }
+            }
+        }
+    }
+    if ambiguous {
+        return None;
+    }
+    // regions the run gets to see: those in front of a value it reads
+    let visible: Vec<usize> = at.iter().copied().filter(|p| stop_after.map(|s| *p <= s).unwrap_or(true)).collect();
+    for (pi, pol) in ["ignore", "stderr", "stdout", "panic"].iter().enumerate() {
+        let (cn, cc) = (&g.cases[2 * pi], &g.cases[2 * pi + 1]);
+        if cn.spec.on_error.as_deref() != Some(*pol) || cc.spec.on_error.as_deref() != Some(*pol) {
+            return None;
+        }
+        let (noisy, clean) = (&obs[2 * pi], &obs[2 * pi + 1]);
+        // a clean stream: no report anywhere, success
+        if clean.res != "ok" {
+            return Some(format!("{}: the clean stream ended with {}", cc.id, clean.res));
+        }
+        if report_lines(&clean.out) > 0 || report_lines(&clean.err) > 0 {
+            return Some(format!("{}: an error report although the stream is clean", cc.id));
+        }
+        match *pol {
+            "ignore" => {
+                if noisy.res != "ok" {
+                    return Some(format!("{}: --on-error=ignore ended with {}", cn.id, noisy.res));
+                }
+                if noisy.out != clean.out {
+                    return Some(format!("{}: noise between values changed the rows under --on-error=ignore", cn.id));
+                }
+                if !noisy.err.is_empty() {
+                    return Some(format!("{}: --on-error=ignore wrote to stderr", cn.id));
+                }
+            }
+            "stderr" => {
+                if noisy.res != "ok" {
+                    return Some(format!("{}: --on-error=stderr ended with {}", cn.id, noisy.res));
+                }
+                if report_lines(&noisy.out) > 0 {
+                    return Some(format!("{}: --on-error=stderr wrote an error report to stdout", cn.id));
+                }
+                if noisy.out != clean.out {
+                    return Some(format!("{}: noise between values changed the rows under --on-error=stderr", cn.id));
+                }
+                let n = report_lines(&noisy.err);
+                if n < visible.len() {
+                    return Some(format!("{}: {} malformed regions but only {n} `error:` lines on stderr", cn.id, visible.len()));
+                }
+            }
+            "stdout" => {
+                if noisy.res != "ok" {
+                    return Some(format!("{}: --on-error=stdout ended with {}", cn.id, noisy.res));
+                }
+                if !noisy.err.is_empty() {
+                    return Some(format!("{}: --on-error=stdout wrote to stderr", cn.id));
+                }
+                if without_reports(&noisy.out) != clean.out {
+                    return Some(format!("{}: noise between values changed the rows under --on-error=stdout", cn.id));
+                }
+                let n = report_lines(&noisy.out);
+                if n < visible.len() {
+                    return Some(format!("{}: {} malformed regions but only {n} `error:` lines on stdout", cn.id, visible.len()));
+                }
+            }
+            _ => {
+                if visible.is_empty() {
+                    // nothing malformed is ever read: the run is the clean run
+                    if noisy.res != "ok" || noisy.out != clean.out {
+                        return Some(format!("{}: no malformed byte is read, yet --on-error=panic gave {} / other rows", cn.id, noisy.res));
+                    }
+                    continue;
+                }
+                if noisy.res == "ok" {
+                    return Some(format!("{}: --on-error=panic did not fail although the stream has {} malformed regions", cn.id, visible.len()));
+                }
+                if !noisy.res.starts_with("err:json") {
+                    return Some(format!("{}: --on-error=panic ended with {} instead of the parse error", cn.id, noisy.res));
+                }
+                if report_lines(&noisy.out) > 0 {
+                    return Some(format!("{}: --on-error=panic wrote an error report to stdout", cn.id));
+                }
+                let first = visible[0];
+                match rows_before(first) {
+                    Some(k) => {
+                        // a streaming pipeline: exactly the rows of the values in front of the first malformed byte
+                        let cl = lines(&clean.out);
+                        let mut want: Vec<u8> = vec![];
+                        for l in cl.iter().take(k) {
+                            want.extend_from_slice(l);
+                            want.push(b'\n');
+                        }
+                        if cl.len() < k {
+                            return None; // the clean run itself is not what the reference expects: other checks' business
+                        }
+                        if noisy.out != want {
+                            return Some(format!(
+                                "{}: --on-error=panic with {first} values in front of the first malformed byte printed {} rows, expected exactly the {k} rows of those values",
+                                cn.id,
+                                lines(&noisy.out).len()
+                            ));
+                        }
+                    }
+                    None => {
+                        if !clean.out.starts_with(&noisy.out) && kind != C06Spec::Other {
+                            return Some(format!("{}: --on-error=panic printed something that is not a prefix of the clean output", cn.id));
+                        }
+                    }
+                }
+            }
+        }
+    }
+    None
+}
+
+// ---------------------------------------------------------------------------------- C07
+
+fn key_of<'a>(v: &'a V, k: &str) -> Option<&'a V> {
+    match v {
+        V::Obj(kvs) => kvs.iter().find(|(x, _)| x == k).map(|(_, v)| v),
+        _ => None,
+    }
+}
+
+/// `out` must be the stable sort of `items` by `key`: a permutation, no pair out of order, equal
+/// keys in arrival order.  Pairs the documented order says nothing about are accepted.
+fn check_sorted<T>(what: &str, items: &[T], out: &[T], same: &dyn Fn(&T, &T) -> bool, cmp: &dyn Fn(&T, &T) -> Option<Ordering>, show_t: &dyn Fn(&T) -> String) -> Option<String> {
+    if items.len() != out.len() {
+        return Some(format!("{what}: {} sortable items in, {} out", items.len(), out.len()));
+    }
+    // assign every output item the earliest unused identical input item
+    let mut used = vec![false; items.len()];
+    let mut arrival = vec![];
+    for o in out {
+        match (0..items.len()).find(|i| !used[*i] && same(&items[*i], o)) {
+            Some(i) => {
+                used[i] = true;
+                arrival.push(i);
+            }
+            None => return Some(format!("{what}: {} is in the result but is not one of the (remaining) sortable inputs: not a permutation", show_t(o))),
+        }
+    }
+    for i in 0..out.len() {
+        for j in i + 1..out.len() {
+            match cmp(&out[i], &out[j]) {
+                Some(Ordering::Greater) => {
+                    return Some(format!("{what}: {} comes before {} against the documented order", show_t(&out[i]), show_t(&out[j])));
+                }
+                Some(Ordering::Equal) if arrival[i] > arrival[j] => {
+                    return Some(format!("{what}: tie not in arrival order: {} (arrived {}) before {} (arrived {})", show_t(&out[i]), arrival[i], show_t(&out[j]), arrival[j]));
+                }
+                _ => {}
+            }
+        }
+    }
+    None
+}
+
+fn c07(g: &Group, obs: &[Obs]) -> Option<String> {
+    let (c, o) = (g.cases.first()?, obs.first()?);
+    let src = c.sources.first()?;
+    let inputs = parse_stream(&src.bytes)?;
+    let kind = if !g.tag.is_empty() {
+        g.tag.clone()
+    } else if c.spec.selects.iter().any(|s| s.ends_with("=ab")) {
+        "triple".into()
+    } else if c.spec.selects.iter().any(|s| s.ends_with("=sb")) {
+        "functions".into()
+    } else {
+        "rows".into()
+    };
+    if o.res != "ok" {
+        return Some(format!("{}: run gave {} {}", c.id, o.res, o.panic_msg));
+    }
+    let sep = rowsep(&c.spec);
+    let rows = match parse_rows(&o.out, &sep) {
+        Ok(r) => r,
+        Err(e) => return Some(format!("{}: {e}", c.id)),
+    };
+    let verdict = match kind.as_str() {
+        "triple" => c07_triple(&inputs, &rows),
+        "functions" => c07_functions(&inputs, &rows),
+        _ => c07_rows(&c.spec, &inputs, &rows),
+    };
+    verdict.map(|m| format!("{}: {m}", c.id))
+}
+
+fn c07_rows(spec: &Spec, inputs: &[V], out: &[V]) -> Option<String> {
+    if !spec.selects.is_empty() || spec.filter.is_some() || spec.split.is_some() || spec.group.is_some() || spec.unique || spec.skip != 0 || spec.take.is_some() || spec.ooa
+        || spec.style.is_some() || spec.sorts.is_empty()
+    {
+        return None;
+    }
+    let env = read_env(&spec.sets).ok()?;
+    let keys: Vec<SortKey> = spec.sorts.iter().map(|s| read_sort(s)).collect::<R<Vec<_>>>().ok()?;
+    // sortable rows: every key present
+    let keyed = |v: &V| -> Option<Option<Vec<V>>> {
+        let mut ks = vec![];
+        for k in &keys {
+            match eval(&k.e, v, &env).ok()? {
+                Some(x) => ks.push(x),
+                None => return Some(None),
+            }
+        }
+        Some(Some(ks))
+    };
+    let mut sortable: Vec<(Vec<V>, V)> = vec![];
+    for v in inputs {
+        if let Some(ks) = keyed(v)? {
+            sortable.push((ks, v.clone()));
+        }
+    }
+    let mut outk: Vec<(Vec<V>, V)> = vec![];
+    for v in out {
+        match keyed(v)? {
+            Some(ks) => outk.push((ks, v.clone())),
+            None => return Some(format!("--sort-by printed {} although one of its keys is absent", show(v))),
+        }
+    }
+    let what = format!("--sort-by {:?}", spec.sorts);
+    check_sorted(
+        &what,
+        &sortable,
+        &outk,
+        &|a, b| same_row(&a.1, &b.1),
+        &|a, b| cmp_keys(&a.0, &b.0, &keys),
+        &|a| format!("{} (keys {})", show(&a.1), a.0.iter().map(show).collect::<Vec<_>>().join(" / ")),
+    )
+}
+
+fn c07_triple(inputs: &[V], rows: &[V]) -> Option<String> {
+    if inputs.len() != 1 || rows.len() != 1 {
+        return Some(format!("{} records in, {} rows out", inputs.len(), rows.len()));
+    }
+    let rec = &inputs[0];
+    let (a, b, c) = (key_of(rec, "a")?, key_of(rec, "b")?, key_of(rec, "c")?);
+    let row = &rows[0];
+    let flag = |n: &str| -> Result<bool, String> {
+        match key_of(row, n) {
+            Some(V::Bool(x)) => Ok(*x),
+            other => Err(format!("comparison `{n}` of {} {} {} gave {} instead of a Boolean", show(a), show(b), show(c), other.map(show).unwrap_or("<nothing>".into()))),
+        }
+    };
+    let get = || -> Result<(bool, bool, bool, bool, bool, bool, bool), String> { Ok((flag("ab")?, flag("ba")?, flag("le")?, flag("ge")?, flag("gt")?, flag("bc")?, flag("ac")?)) };
+    let (ab, ba, le, ge, gt, bc, ac) = match get() {
+        Ok(t) => t,
+        Err(e) => return Some(e),
+    };
+    let ctx = format!("a={} b={} c={}", show(a), show(b), show(c));
+    // agreement with the documented order where it speaks
+    for (x, y, lt, name) in [(a, b, ab, "(< a b)"), (b, a, ba, "(< b a)"), (b, c, bc, "(< b c)"), (a, c, ac, "(< a c)")] {
+        if let Some(ord) = ref_cmp(x, y) {
+            if lt != (ord == Ordering::Less) {
+                return Some(format!("{name} = {lt} but the documented order says {:?} ({ctx})", ord));
+            }
+        }
+    }
+    if let Some(ord) = ref_cmp(a, b) {
+        if le != (ord != Ordering::Greater) || ge != (ord != Ordering::Less) || gt != (ord == Ordering::Greater) {
+            return Some(format!("(<= a b)={le} (>= a b)={ge} (> a b)={gt} but the documented order says {:?} ({ctx})", ord));
+        }
+    }
+    // one order: the four functions are views of the same relation, which is total and transitive
+    if ab && ba {
+        return Some(format!("(< a b) and (< b a) both hold ({ctx})"));
+    }
+    if le != !ba || ge != !ab || gt != ba {
+        return Some(format!("< <= > >= disagree among themselves: lt={ab} gt'={ba} le={le} ge={ge} gt={gt} ({ctx})"));
+    }
+    if ab && bc && !ac {
+        return Some(format!("not transitive: a<b, b<c but not a<c ({ctx})"));
+    }
+    if !ba && bc && !ac {
+        return Some(format!("not transitive: a<=b, b<c but not a<c ({ctx})"));
+    }
+    // the sort functions on the same three values
+    let cmpv = |x: &V, y: &V| ref_cmp(x, y);
+    let samev = |x: &V, y: &V| same_row(x, y);
+    let showv = |x: &V| show(x);
+    match key_of(row, "s") {
+        Some(V::Arr(s)) => {
+            let items = vec![a.clone(), b.clone(), c.clone()];
+            if let Some(m) = check_sorted("(sort [a b c])", &items, s, &samev, &cmpv, &showv) {
+                return Some(format!("{m} ({ctx})"));
+            }
+        }
+        other => return Some(format!("(sort [a b c]) gave {} ({ctx})", other.map(show).unwrap_or("<nothing>".into()))),
+    }
+    match key_of(row, "su") {
+        Some(V::Arr(s)) => {
+            if let Some(m) = check_sort_unique(&[a.clone(), b.clone(), c.clone(), a.clone()], s) {
+                return Some(format!("{m} ({ctx})"));
+            }
+        }
+        other => return Some(format!("(sort_unique [a b c a]) gave {} ({ctx})", other.map(show).unwrap_or("<nothing>".into()))),
+    }
+    None
+}
+
+/// sorted, no two equal neighbours, the same set of values as the input
+fn check_sort_unique(items: &[V], out: &[V]) -> Option<String> {
+    for i in 0..out.len() {
+        for j in i + 1..out.len() {
+            match ref_cmp(&out[i], &out[j]) {
+                Some(Ordering::Greater) => return Some(format!("sort_unique: {} before {} against the documented order", show(&out[i]), show(&out[j]))),
+                Some(Ordering::Equal) => return Some(format!("sort_unique: {} and {} are equal and both kept", show(&out[i]), show(&out[j]))),
+                _ => {}
+            }
+        }
+    }
+    for x in items {
+        if !out.iter().any(|y| v_eq(x, y)) {
+            return Some(format!("sort_unique: {} disappeared", show(x)));
+        }
+    }
+    for y in out {
+        if !items.iter().any(|x| v_eq(x, y)) {
+            return Some(format!("sort_unique: {} is not one of the inputs", show(y)));
+        }
+    }
+    None
+}
+
+fn c07_functions(inputs: &[V], rows: &[V]) -> Option<String> {
+    if inputs.len() != 1 || rows.len() != 1 {
+        return Some(format!("{} records in, {} rows out", inputs.len(), rows.len()));
+    }
+    let rec = &inputs[0];
+    let row = &rows[0];
+    let (l, p, o) = match (key_of(rec, "l")?, key_of(rec, "p")?, key_of(rec, "o")?) {
+        (V::Arr(l), V::Arr(p), V::Obj(o)) => (l, p, o),
+        _ => return None,
+    };
+    let by_k = |x: &V, y: &V| -> Option<Ordering> {
+        match (key_of(x, "k"), key_of(y, "k")) {
+            (Some(a), Some(b)) => ref_cmp(a, b),
+            _ => None,
+        }
+    };
+    let samev = |x: &V, y: &V| same_row(x, y);
+    let showv = |x: &V| show(x);
+    // (sort_by .l .k)
+    match key_of(row, "sb") {
+        Some(V::Arr(s)) => {
+            if let Some(m) = check_sorted("(sort_by .l .k)", l, s, &samev, &by_k, &showv) {
+                return Some(m);
+            }
+        }
+        other => return Some(format!("(sort_by .l .k) gave {}", other.map(show).unwrap_or("<nothing>".into()))),
+    }
+    // (sort .p)
+    match key_of(row, "so") {
+        Some(V::Arr(s)) => {
+            if let Some(m) = check_sorted("(sort .p)", p, s, &samev, &|x, y| ref_cmp(x, y), &showv) {
+                return Some(m);
+            }
+        }
+        other => return Some(format!("(sort .p) gave {}", other.map(show).unwrap_or("<nothing>".into()))),
+    }
+    // (sort_unique .p)
+    match key_of(row, "su") {
+        Some(V::Arr(s)) => {
+            if let Some(m) = check_sort_unique(p, s) {
+                return Some(m);
+            }
+        }
+        other => return Some(format!("(sort_unique .p) gave {}", other.map(show).unwrap_or("<nothing>".into()))),
+    }
+    // objects: members as (name, value) pairs in their order
+    let same_kv = |x: &(String, V), y: &(String, V)| x.0 == y.0 && same_row(&x.1, &y.1);
+    let show_kv = |x: &(String, V)| format!("{:?}: {}", x.0, show(&x.1));
+    match key_of(row, "sv") {
+        Some(V::Obj(s)) => {
+            if let Some(m) = check_sorted("(sort_by_values_by .o .k)", o, s, &same_kv, &|x, y| by_k(&x.1, &y.1), &show_kv) {
+                return Some(m);
+            }
+        }
+        other => return Some(format!("(sort_by_values_by .o .k) gave {}", other.map(show).unwrap_or("<nothing>".into()))),
+    }
+    match key_of(row, "sk") {
+        Some(V::Obj(s)) => {
+            if let Some(m) = check_sorted("(sort_by_keys .o)", o, s, &same_kv, &|x, y| Some(x.0.chars().cmp(y.0.chars())), &show_kv) {
+                return Some(m);
+            }
+        }
+        other => return Some(format!("(sort_by_keys .o) gave {}", other.map(show).unwrap_or("<nothing>".into()))),
+    }
+    // (sort_by_values (map_values .o .k)): the object of the keys, sorted by value
+    let mapped: Vec<(String, V)> = o.iter().filter_map(|(n, v)| key_of(v, "k").map(|k| (n.clone(), k.clone()))).collect();
+    if mapped.len() == o.len() {
+        match key_of(row, "svv") {
+            Some(V::Obj(s)) => {
+                if let Some(m) = check_sorted("(sort_by_values (map_values .o .k))", &mapped, s, &same_kv, &|x, y| ref_cmp(&x.1, &y.1), &show_kv) {
+                    return Some(m);
+                }
+            }
+            other => return Some(format!("(sort_by_values (map_values .o .k)) gave {}", other.map(show).unwrap_or("<nothing>".into()))),
+        }
+    }
+    let _ = show_opt;
     None
 }
